@@ -567,6 +567,11 @@ func guardedOps(fn *ssa.Function, opaque func(*ssa.Function) bool) map[string]bo
 					if sc := ccall.Call.StaticCallee(); sc != nil && fnPkgPath(sc) == home && !opaque(sc) {
 						stmts = allEdgeStmts(cd.atom, cd.edge)
 					}
+					// a cache lookup (sync.Map.Load, atomic.Pointer.Load …) is not a validation
+					// predicate: which container a memo lives in is C18's business
+					if sc := ccall.Call.StaticCallee(); sc != nil && (fnPkgPath(sc) == "sync" || fnPkgPath(sc) == "sync/atomic") {
+						continue
+					}
 				}
 				for _, st := range stmts {
 					if m := reStmtShape.FindStringSubmatch(st); m != nil {
